@@ -1,10 +1,10 @@
 package c18
 
 import (
-	"reflect"
-	"path/filepath"
-	"os"
 	"fmt"
+	"os"
+	"path/filepath"
+	"reflect"
 	"runtime"
 	"runtime/debug"
 	"sort"
@@ -201,12 +201,12 @@ type refPoint struct {
 }
 
 type refTable struct {
-	unit      string            // expected ComparisonSeries.Unit
-	anyBench  map[string]bool   // benchmarks of any result of this table
+	unit      string          // expected ComparisonSeries.Unit
+	anyBench  map[string]bool // benchmarks of any result of this table
 	points    map[string]*refPoint
-	series    []int             // series with a point, chronological
-	missDen   map[int]bool      // series having a contributing experiment without denominator measurements
-	benchWith map[string]bool   // benchmarks with at least one point
+	series    []int           // series with a point, chronological
+	missDen   map[int]bool    // series having a contributing experiment without denominator measurements
+	benchWith map[string]bool // benchmarks with at least one point
 }
 
 func pkey(bench string, ser int) string { return bench + "\x00" + strconv.Itoa(ser) }
@@ -319,14 +319,14 @@ func buildReference(c *Case) *reference {
 // running the library
 
 type gotPoint struct {
-	ok       bool
-	num, den []float64
-	hasDen   bool
-	date     string
-	sumOK    bool
-	present  bool
+	ok                bool
+	num, den          []float64
+	hasDen            bool
+	date              string
+	sumOK             bool
+	present           bool
 	low, centre, high float64
-	sumDate  string
+	sumDate           string
 }
 
 type gotTable struct {
